@@ -278,3 +278,30 @@ Fixpoint auto_sched (p : pipeline) (capB : nat) (rev_order : bool) (fuel : nat) 
     | None => []
     end
   end.
+
+(* ---- read-to-end pipelines (for the determinism theorem) ---- *)
+(* a stage  sends ; each {forward what the filter keeps} ; sends *)
+Definition dstage := (list (band * N) * filt * list (band * N))%type.
+Definition send_of (bx : band * N) : instr := ISend (fst bx) (snd bx).
+Definition det_prog (d : dstage) : list instr :=
+  let '(pre, f, post) := d in map send_of pre ++ IDrain f None :: map send_of post.
+Definition det_pipeline (dp : list dstage) : pipeline := map det_prog dp.
+
+Fixpoint proj_band (b : band) (l : list (band * N)) : list N :=
+  match l with
+  | [] => []
+  | (c, x) :: r => if band_eqb c b then x :: proj_band b r else proj_band b r
+  end.
+
+(* what such a stage writes on band b, given what it receives on band b *)
+Definition out_band (d : dstage) (b : band) (inp : list N) : list N :=
+  let '(pre, f, post) := d in proj_band b pre ++ filter (keep f) inp ++ proj_band b post.
+
+(* the data flow of the whole pipeline, stage by stage *)
+Fixpoint flow_in (dp : list dstage) (k : nat) (b : band) : list N :=
+  match k with
+  | O => []
+  | S j => out_band (nth j dp ([], FAll, [])) b (flow_in dp j b)
+  end.
+Definition flow_out (dp : list dstage) (k : nat) (b : band) : list N :=
+  out_band (nth k dp ([], FAll, [])) b (flow_in dp k b).
